@@ -18,6 +18,7 @@ package mysql
 
 import (
 	"errors"
+	"strings"
 
 	"github.com/sirupsen/logrus"
 
@@ -117,10 +118,32 @@ func filterTableExpressions(statement sqlparser.Statement) (sqlparser.TableExprs
 
 func isSupportedSQLVal(val *sqlparser.SQLVal) bool {
 	switch val.Type {
-	case sqlparser.PgEscapeString, sqlparser.HexVal, sqlparser.StrVal, sqlparser.PgPlaceholder, sqlparser.ValArg, sqlparser.IntVal:
+	case sqlparser.PgEscapeString, sqlparser.HexVal, sqlparser.HexNum, sqlparser.StrVal, sqlparser.PgPlaceholder, sqlparser.ValArg, sqlparser.IntVal:
 		return true
 	}
 	return false
+}
+
+// normalizeSearchableComparison brings the spellings of one and the same comparison to the form
+// <ColName> <op> <VALUE> that the code below understands: <VALUE> = <ColName> (also !=, <=>) has
+// its sides swapped, and a value written with the _binary introducer loses the introducer (the
+// value is rewritten as a binary 0x.. number anyway).
+func normalizeSearchableComparison(expr *sqlparser.ComparisonExpr) {
+	if _, leftIsValue := expr.Left.(*sqlparser.SQLVal); leftIsValue {
+		if _, rightIsColumn := expr.Right.(*sqlparser.ColName); rightIsColumn {
+			switch expr.Operator {
+			case sqlparser.EqualStr, sqlparser.NotEqualStr, sqlparser.NullSafeEqualStr:
+				expr.Left, expr.Right = expr.Right, expr.Left
+			}
+		}
+	}
+	if _, leftIsColumn := expr.Left.(*sqlparser.ColName); leftIsColumn {
+		if unary, ok := expr.Right.(*sqlparser.UnaryExpr); ok && strings.TrimSpace(unary.Operator) == "_binary" {
+			if inner, ok := unary.Expr.(*sqlparser.SQLVal); ok {
+				expr.Right = inner
+			}
+		}
+	}
 }
 
 // filterColumnEqualComparisonExprs return only <ColName> = <VALUE> or <ColName> != <VALUE> or <ColName> <=> <VALUE> expressions
@@ -136,6 +159,7 @@ func (filter *SearchableQueryFilter) filterColumnEqualComparisonExprs(stmt sqlpa
 		if comparisonExpr.Escape != nil {
 			return true, nil
 		}
+		normalizeSearchableComparison(comparisonExpr)
 
 		lColumn, ok := comparisonExpr.Left.(*sqlparser.ColName)
 		if !ok {
@@ -230,6 +254,7 @@ func ParseSearchQueryPlaceholdersSettings(statement sqlparser.Statement, schemaS
 			}
 
 			var colName *sqlparser.ColName
+			normalizeSearchableComparison(comparisonExpr)
 
 			switch expr := comparisonExpr.Left.(type) {
 			case *sqlparser.ColName:
